@@ -17,6 +17,7 @@ CHOICES = {
     'empty_blocks': ('both', 'none', 'constraints-only'),
     'parens': ('minimal', 'full', 'wrapped'),
     'blank_lines': (False, True),
+    'block': (None, 'first', 'last'),     # a `Feature { ... }` block over two attributes of one feature
 }
 DEFAULT = {k: v[0] for k, v in CHOICES.items()}
 KW = {'AND': 'AND', 'OR': 'OR', 'NOT': 'NOT', 'EQUIVALENCE': 'IFF', 'IMPLIES': 'IMPLIES', 'REQUIRES': 'REQUIRES',
@@ -98,12 +99,35 @@ def emit(model, ch):
         if ch['blank_lines']:
             out.append('')
         out.append('%Constraints')
+        blk = block_constraint(model) if ch.get('block') else None
+        if blk and ch['block'] == 'first':
+            out.append('%s { %s AND %s; }' % blk)
         for (_n, t) in model[1]:
             s = expr(t, ch)
             if ch['parens'] == 'wrapped':
                 s = '(%s)' % s
             out.append(s + ';')
+        if blk and ch['block'] == 'last':
+            out.append('%s { %s AND %s; }' % blk)
     return '\n'.join(out) + '\n'
+
+
+def block_constraint(model):
+    """(feature, attr1, attr2) of the first feature that has two attributes, else None."""
+    for f in sh.features(model):
+        if len(f[5]) >= 2:
+            return (f[0], f[5][0][0], f[5][1][0])
+    return None
+
+
+def expected_constraints(model, ch):
+    """The constraint trees the document denotes (the block adds `F.a AND F.b`)."""
+    trees = [t for _n, t in model[1]]
+    blk = block_constraint(model) if ch.get('block') and (model[1] or ch['empty_blocks'] in ('both', 'constraints-only')) else None
+    if blk:
+        extra = ('AND', '%s.%s' % (blk[0], blk[1]), '%s.%s' % (blk[0], blk[2]))
+        trees = [extra] + trees if ch['block'] == 'first' else trees + [extra]
+    return trees
 
 
 def selftest():
